@@ -18,6 +18,8 @@ pub struct Entry {
     pub file: Option<S>,
     /// R10: has a usable range and the next record is a method entry with the identical usable range
     pub inlined_callee: bool,
+    /// R10: not an inlined callee and the first of its (obfuscated, arguments, original) in the block (set by `fold`)
+    pub bp_survivor: bool,
 }
 
 #[derive(Clone, Debug)]
@@ -106,9 +108,16 @@ impl Model {
                         _ => false,
                     };
                     if let Some(b) = blocks.last_mut() {
-                        b.entries.push(Entry { obf, name, args, cls, usable: u, os, oe, file, inlined_callee });
+                        b.entries.push(Entry { obf, name, args, cls, usable: u, os, oe, file, inlined_callee, bp_survivor: false });
                     }
                 }
+            }
+        }
+        // R10 de-duplication, per block, in file order (a set of keys; nothing else)
+        for b in blocks.iter_mut() {
+            let mut seen: std::collections::HashSet<(S, S, S)> = std::collections::HashSet::new();
+            for e in b.entries.iter_mut() {
+                e.bp_survivor = !e.inlined_callee && seen.insert((e.obf, e.args, e.name));
             }
         }
         Model { blocks, index: None }
@@ -192,24 +201,9 @@ impl Model {
     ) {
         out.clear();
         let Some(b) = self.block(obf_class) else { return };
-        let mut seen: Vec<(S, S, S)> = Vec::new();
-        for e in b.entries.iter() {
-            if e.inlined_callee {
-                continue;
-            }
-            let key = (e.obf, e.args, e.name);
-            if seen.contains(&key) {
-                continue;
-            }
-            seen.push(key);
+        for e in b.entries.iter().filter(|e| e.bp_survivor) {
             if e.obf == obf_method && e.args == params {
-                out.push(MFrame {
-                    class: e.cls.unwrap_or(b.orig),
-                    method: e.name,
-                    line: 0,
-                    file: None,
-                    params: Some(params),
-                });
+                out.push(MFrame { class: e.cls.unwrap_or(b.orig), method: e.name, line: 0, file: None, params: Some(params) });
             }
         }
     }
@@ -229,19 +223,6 @@ impl Model {
 
     /// R10 survivors of a block, in file order
     pub fn by_params_survivors(b: &Block) -> Vec<&Entry> {
-        let mut seen: Vec<(S, S, S)> = Vec::new();
-        let mut out = Vec::new();
-        for e in b.entries.iter() {
-            if e.inlined_callee {
-                continue;
-            }
-            let key = (e.obf, e.args, e.name);
-            if seen.contains(&key) {
-                continue;
-            }
-            seen.push(key);
-            out.push(e);
-        }
-        out
+        b.entries.iter().filter(|e| e.bp_survivor).collect()
     }
 }
